@@ -109,8 +109,17 @@ def replay_coll(recs):
     out = []
     try:
         cols = [g.PointCollection(np.array([r["r"]["pts"][i] for r in recs])) for i in range(4)]
+        keep = [np.array(c.array, copy=True) for c in cols]
         with np.errstate(all="ignore"):
             val = np.asarray(g.crossratio(*cols))
+            again = np.asarray(g.crossratio(*cols))
+        if any(not np.array_equal(np.asarray(c.array), k) for c, k in zip(cols, keep)):
+            out.append(dict(site=f"crossratio(points)/{recs[0]['r']['d']}D/collection/operands-unchanged", stratum="general",
+                            case={"count": len(recs)}, expected="the four collections are left as they were",
+                            observed={"changed argument": [i for i, (c, k) in enumerate(zip(cols, keep)) if not np.array_equal(np.asarray(c.array), k)]}))
+        if not np.allclose(val, again, equal_nan=True):
+            out.append(dict(site=f"crossratio(points)/{recs[0]['r']['d']}D/collection/repeated-call", stratum="general",
+                            case={"count": len(recs)}, expected="the same values", observed="the second call differs"))
         for i, r in enumerate(recs):
             if not cr_ok(val[i], r["r"]["cr"]):
                 out.append(dict(site=f"crossratio(points)/{r['r']['d']}D/collection", stratum=r["s"], case={"pts": r["r"]["pts"], "position": i},
@@ -153,7 +162,7 @@ def run(ctx: Ctx):
     ctx.log(f"{len(recs)} cases")
     jobs = [("single", recs[i:i + 400]) for i in range(0, len(recs), 400)]
     for dim in (1, 2, 3):
-        sel = [x for x in recs if x["r"]["t"] == "pts" and x["r"]["d"] == dim and x["s"] != "repeated-point"]
+        sel = [x for x in recs if x["r"]["t"] == "pts" and x["r"]["d"] == dim]
         for i in range(0, len(sel), 200):
             jobs.append(("coll", sel[i:i + 200]))
     with Pool(16) as pool:
